@@ -125,13 +125,19 @@ class Votes(object):
             d = self.v.setdefault(cur, {})
             d[ref] = d.get(ref, 0) + 1
 
-    def mapping(self, cooccur=None, solo=None):
+    def mapping(self, cooccur=None, solo=None, occ=None):
         """Best reference name per current name.  Two current names may share one reference name only when they
         never occur together in one top-level statement (e.g. a comprehension variable and a loop variable that the
         reference spells alike); otherwise the higher vote wins."""
         cand = []
         for cur, d in self.v.items():
             ref, cnt = max(d.items(), key=lambda kv: (kv[1], kv[0] == cur))
+            if ref != cur and cur in self.br and (2 * d.get(cur, 0) >= cnt or cnt < 3):
+                # a name the reference binds too, and that lines up with itself in a fair share of its occurrences,
+                # is that variable: it is not renamed onto another one that merely stands where it stood once
+                ref, cnt = cur, d.get(cur, 0)
+            if ref != cur and occ is not None and 2 * cnt <= occ.get(cur, 0):
+                continue        # lined up with that name in a minority of its occurrences only: not the same variable
             cand.append((cnt, cur, ref))
         cand.sort(reverse=True)
         taken, out = {}, {}
@@ -277,7 +283,13 @@ def normalise_function(cur, ref):
             solo.add(n.name)
         elif isinstance(n, ast.alias):
             solo.add((n.asname or n.name).split(".")[0])
-    full = votes.mapping(cooccur, solo)
+    occ = {}
+    for n in ast.walk(cur):
+        if isinstance(n, ast.Name):
+            occ[n.id] = occ.get(n.id, 0) + 1
+        elif isinstance(n, ast.arg):
+            occ[n.arg] = occ.get(n.arg, 0) + 1
+    full = votes.mapping(cooccur, solo, occ)
     # names of nested functions / classes are never merged with anything else: two definitions of one name in a scope
     # would shadow each other
     defnames = {n.name for n in ast.walk(cur) if isinstance(n, FuncTypes + (ast.ClassDef,)) and n is not cur}
